@@ -91,3 +91,10 @@ PROPS["C03"] = {
     "rule": "seeded ASTs x holiday contexts x 3 instants each (days derived from the expression's selectors +-2 or random in 1900..9999; minutes at span bounds +-1; seconds/nanoseconds in a third). Non-trivial = instant with a pointwise change within the horizon; distinct by hash of (AST, context, instant).",
     "assumptions": ["schedule_at is the pointwise truth (decided separately by C01)", "beyond the horizon the no-change claim is checked on skipped and candidate days only (far_claims_sampled)"],
 }
+
+PROPS["C08"] = {
+    "technique": "invariant monitor at the public API around both bounds of the supported date range, reusing the C02/C03 oracles",
+    "level_text": "Expressions whose selectors straddle 1900 and 9999 are evaluated at instants just before/after both bounds and far outside them (years -262000..262000): state must be closed outside, no interval may start before the requested start or end after min(requested end, 10000-01-01), outside intervals are closed without comments, next_change never returns an instant at or beyond 10000-01-01 and from before 1900 equals the first non-closed instant from 1900-01-01T00:00 found by a pointwise scan. Exploration.",
+    "rule": "seeded ASTs with years/dates biased to 1900, 1901, 9998, 9999 and '+' forms, a third biased to long intervals, holiday calendars with dates outside the range x 2 instants each from 8 classes (just before/after 1900 and 10000, far before/after, the year before 1900, the last year) x a window of 1..30 days from the instant. Non-trivial = expression with a selector; distinct by hash of (AST, context, instant).",
+    "assumptions": ["schedule_at is the pointwise truth inside the range (C01)", "state at chrono's very last representable minute is outside the property's stated range and is not probed"],
+}
